@@ -1,80 +1,176 @@
 import MtailVerif.Model.Pipeline
 namespace MtailVerif.Pipeline
+open MtailVerif
 
-def ExactlyOne {α : Type} (r : Ret α) : Prop := (r.val.isSome ∧ r.err = none) ∨ (r.val = none ∧ r.err.isSome)
+theorem sum_set (l : List Nat) (i : Nat) (x y : Nat) (h : l[i]? = some y) : (l.set i x).sum + y = l.sum + x := by
+  induction l generalizing i with
+  | nil => simp at h
+  | cons a rest ih =>
+    cases i with
+    | zero => simp at h; subst h; simp; omega
+    | succ i =>
+      simp only [List.getElem?_cons_succ] at h
+      simp only [List.set_cons_succ, List.sum_cons]
+      have := ih i h; omega
 
-/-- an error, when there is one, lists at least one message -/
-def ErrNonEmpty {α : Type} (r : Ret α) : Prop := ∀ l, r.err = some l → l ≠ []
+structure Inv (files : List (List Bytes)) (s : St) : Prop where
+  nfiles : s.remaining.length = files.length
+  split : ∀ i, i < files.length → projFile i s.arrived ++ (s.remaining[i]?.getD []) = (files[i]?.getD [])
+  behind : ∀ d ∈ s.done, d ≤ s.arrived.length
+  known : ∀ x ∈ s.arrived, x.1 < files.length
 
-theorem passRet_cases {α : Type} (errors : List String) (node : α) :
-    (passRet errors node = ⟨some node, none⟩ ∧ errors = []) ∨
-    (passRet errors node = ⟨some node, some errors⟩ ∧ errors ≠ []) := by
-  unfold passRet
-  cases errors with
-  | nil => left; simp
-  | cons e es => right; simp
+theorem inv_init (files : List (List Bytes)) (nvm : Nat) : Inv files (init files nvm) := by
+  refine ⟨rfl, ?_, ?_, ?_⟩
+  · intro i _; simp [init, projFile]
+  · intro d hd; simp [init] at hd; simp [hd.2, init]
+  · intro x hx; simp [init] at hx
 
-theorem codegenRet_ok {β : Type} (errors : List String) (obj : β) :
-    ExactlyOne (codegenRet errors obj) ∧ ErrNonEmpty (codegenRet errors obj) := by
-  unfold codegenRet ExactlyOne ErrNonEmpty
-  cases errors with
-  | nil => simp
-  | cons e es => simp
+theorem projFile_append (i : Nat) (a b : List Line) : projFile i (a ++ b) = projFile i a ++ projFile i b := by
+  simp [projFile, List.filter_append]
 
-theorem compile_ok {S A O : Type} (st : Stages S A O) (optimisation : Bool) (src : S) :
-    ExactlyOne (compile st optimisation src) ∧
-    (((st.parse src).1 ≠ 0 → (st.parse src).2.1 ≠ []) → ErrNonEmpty (compile st optimisation src)) := by
-  unfold compile
-  simp only
-  -- parse
-  by_cases hp : (st.parse src).1 ≠ 0 ∨ (st.parse src).2.1 ≠ []
-  · simp only [parseRet, hp, if_true]
-    refine ⟨Or.inr ⟨rfl, rfl⟩, fun hy l hl => ?_⟩
-    simp at hl; subst hl
-    rcases hp with h | h
-    · exact hy h
-    · exact h
-  · simp only [parseRet, hp, if_false]
-    -- first optimisation
-    have step : ∀ (r : Ret A) (k : A → Ret O), (∃ a, (r = ⟨some a, none⟩) ∨ (∃ e, r = ⟨some a, some e⟩ ∧ e ≠ [])) →
-        (∀ a, ExactlyOne (k a) ∧ ErrNonEmpty (k a)) →
-        ExactlyOne (match r.err, r.val with
-          | some e, _ => ⟨none, some e⟩
-          | none, none => ⟨none, none⟩
-          | none, some a => k a) ∧
-        ErrNonEmpty (match r.err, r.val with
-          | some e, _ => ⟨none, some e⟩
-          | none, none => ⟨none, none⟩
-          | none, some a => k a) := by
-      intro r k hr hk
-      obtain ⟨a, h | ⟨e, h, hne⟩⟩ := hr
-      · subst h; exact hk a
-      · subst h
-        refine ⟨Or.inr ⟨rfl, rfl⟩, fun l hl => ?_⟩
-        simp at hl; subst hl; exact hne
-    have pass : ∀ (b : Bool) (f : A → List String × A) (a : A),
-        ∃ a', ((if b then passRet (f a).1 (f a).2 else (⟨some a, none⟩ : Ret A)) = ⟨some a', none⟩) ∨
-          (∃ e, (if b then passRet (f a).1 (f a).2 else (⟨some a, none⟩ : Ret A)) = ⟨some a', some e⟩ ∧ e ≠ []) := by
-      intro b f a
-      cases b with
-      | false => exact ⟨a, Or.inl rfl⟩
-      | true =>
-        rcases passRet_cases (f a).1 (f a).2 with ⟨h, _⟩ | ⟨h, hne⟩
-        · exact ⟨(f a).2, Or.inl (by simpa using h)⟩
-        · exact ⟨(f a).2, Or.inr ⟨_, by simpa using h, hne⟩⟩
-    have all := step _ (fun a1 =>
-        match (passRet (st.check a1).1 (st.check a1).2).err, (passRet (st.check a1).1 (st.check a1).2).val with
-        | some e, _ => ⟨none, some e⟩
-        | none, none => ⟨none, none⟩
-        | none, some a2 =>
-          match (if optimisation then passRet (st.optimise a2).1 (st.optimise a2).2 else ⟨some a2, none⟩ : Ret A).err,
-                (if optimisation then passRet (st.optimise a2).1 (st.optimise a2).2 else ⟨some a2, none⟩ : Ret A).val with
-          | some e, _ => ⟨none, some e⟩
-          | none, none => ⟨none, none⟩
-          | none, some a3 => codegenRet (st.codegen a3).1 (st.codegen a3).2)
-      (pass optimisation st.optimise (st.parse src).2.2)
-      (fun a1 => step _ _ (pass true st.check a1 |> fun h => by simpa using h)
-        (fun a2 => step _ _ (pass optimisation st.optimise a2) (fun a3 => codegenRet_ok _ _)))
-    exact ⟨all.1, fun _ => all.2⟩
+theorem inv_step (files : List (List Bytes)) (s : St) (hi : Inv files s) (a : Act) (he : enabled s a = true) :
+    Inv files (step s a) := by
+  cases a with
+  | emit i =>
+    simp only [enabled] at he
+    cases hr : s.remaining[i]? with
+    | none => simp [hr] at he
+    | some li =>
+      cases li with
+      | nil => simp [hr] at he
+      | cons l rest =>
+        have hil : i < s.remaining.length := (List.getElem?_eq_some_iff.mp hr).1
+        simp only [step, hr]
+        refine ⟨by simp [hi.nfiles], ?_, ?_, ?_⟩
+        · intro j hj
+          have hs := hi.split j hj
+          by_cases hji : j = i
+          · subst hji
+            simp only [hr, Option.getD_some] at hs
+            simp only [projFile_append, List.getElem?_set_self hil, Option.getD_some]
+            simp only [projFile, List.filter_cons, List.filter_nil, decide_true, if_true, List.map_cons, List.map_nil]
+            rw [← hs]; simp [projFile]
+          · have hne : i ≠ j := fun e => hji e.symm
+            simp only [projFile_append, List.getElem?_set_ne hne]
+            have : projFile j [(i, l)] = [] := by simp [projFile, hne]
+            rw [this, List.append_nil]; exact hs
+        · intro d hd; have := hi.behind d hd; simp; omega
+        · intro x hx
+          simp only [List.mem_append, List.mem_singleton] at hx
+          rcases hx with hx | hx
+          · exact hi.known x hx
+          · subst hx; simp only; rw [← hi.nfiles]; exact hil
+  | process v =>
+    simp only [enabled] at he
+    cases hd : s.done[v]? with
+    | none => simp [hd] at he
+    | some d =>
+      simp only [hd, decide_eq_true_eq] at he
+      simp only [step, hd]
+      refine ⟨hi.nfiles, hi.split, ?_, hi.known⟩
+      intro d' hd'
+      rcases List.mem_or_eq_of_mem_set hd' with h | h
+      · exact hi.behind d' h
+      · subst h; show d + 1 ≤ s.arrived.length; omega
+
+/-- no deadlock: a reachable state that is not final always has an enabled action -/
+theorem progress (s : St) (hb : ∀ d ∈ s.done, d ≤ s.arrived.length) (hf : final s = false) :
+    ∃ a, enabled s a = true := by
+  unfold final at hf
+  simp only [Bool.and_eq_false_iff] at hf
+  rcases hf with h | h
+  · simp only [List.all_eq_false] at h
+    obtain ⟨li, hli, hne⟩ := h
+    obtain ⟨i, hi, rfl⟩ := List.mem_iff_getElem.mp hli
+    refine ⟨.emit i, ?_⟩
+    simp only [enabled, List.getElem?_eq_getElem hi]
+    cases hq : s.remaining[i] with
+    | nil => simp [hq] at hne
+    | cons l rest => rfl
+  · simp only [List.all_eq_false] at h
+    obtain ⟨d, hd, hne⟩ := h
+    obtain ⟨v, hv, rfl⟩ := List.mem_iff_getElem.mp hd
+    refine ⟨.process v, ?_⟩
+    have hle := hb _ hd
+    have hlt : s.done[v] < s.arrived.length := by
+      have : s.done[v] ≠ s.arrived.length := by simpa using hne
+      omega
+    simp [enabled, List.getElem?_eq_getElem hv, hlt]
+
+/-- every enabled action strictly decreases the measure: every run is finite -/
+theorem measure_decreases (s : St) (hb : ∀ d ∈ s.done, d ≤ s.arrived.length) (a : Act)
+    (he : enabled s a = true) : measure (step s a) < measure s := by
+  cases a with
+  | emit i =>
+    simp only [enabled] at he
+    cases hr : s.remaining[i]? with
+    | none => simp [hr] at he
+    | some li =>
+      cases li with
+      | nil => simp [hr] at he
+      | cons l rest =>
+        simp only [step, hr, measure]
+        have h1 : (s.remaining.map (·.length))[i]? = some (rest.length + 1) := by
+          simp [List.getElem?_map, hr]
+        have hset := sum_set (s.remaining.map (·.length)) i rest.length (rest.length + 1) h1
+        have hmap : (s.remaining.set i rest).map (·.length) = (s.remaining.map (·.length)).set i rest.length := by
+          rw [List.map_set]
+        rw [hmap]
+        have hdone : (s.done.map (fun d => (s.arrived ++ [(i, l)]).length - d)).sum =
+            (s.done.map (fun d => s.arrived.length - d)).sum + s.done.length := by
+          have : ∀ (ds : List Nat), (∀ d ∈ ds, d ≤ s.arrived.length) →
+              (ds.map (fun d => (s.arrived ++ [(i, l)]).length - d)).sum = (ds.map (fun d => s.arrived.length - d)).sum + ds.length := by
+            intro ds
+            induction ds with
+            | nil => intro _; rfl
+            | cons d rest' ih =>
+              intro h
+              have hd := h d (by simp)
+              have := ih (fun x hx => h x (List.mem_cons_of_mem _ hx))
+              simp only [List.map_cons, List.sum_cons, List.length_cons, List.length_append, List.length_nil] at this ⊢
+              omega
+          exact this s.done hb
+        rw [hdone]
+        generalize (s.remaining.map (·.length)).sum = S at hset
+        generalize ((s.remaining.map (·.length)).set i rest.length).sum = S' at hset
+        generalize (s.done.map (fun d => s.arrived.length - d)).sum = D
+        have hS : S' + 1 = S := by omega
+        subst hS
+        have : (S' + 1) * (s.done.length + 1) = S' * (s.done.length + 1) + (s.done.length + 1) := by
+          rw [Nat.add_mul]; simp
+        omega
+  | process v =>
+    simp only [enabled] at he
+    cases hd : s.done[v]? with
+    | none => simp [hd] at he
+    | some d =>
+      simp only [hd, decide_eq_true_eq] at he
+      simp only [step, hd, measure, List.length_set]
+      have h1 : (s.done.map (fun d => s.arrived.length - d))[v]? = some (s.arrived.length - d) := by
+        simp [List.getElem?_map, hd]
+      have hset := sum_set (s.done.map (fun d => s.arrived.length - d)) v (s.arrived.length - (d + 1)) _ h1
+      have hmap : (s.done.set v (d + 1)).map (fun d => s.arrived.length - d) =
+          (s.done.map (fun d => s.arrived.length - d)).set v (s.arrived.length - (d + 1)) := by
+        rw [List.map_set]
+      rw [hmap]
+      omega
+
+/-- in a final state every file has been delivered completely and in order, and every VM has
+    processed every arrived line -/
+theorem final_complete (files : List (List Bytes)) (s : St) (hi : Inv files s) (hf : final s = true) :
+    (∀ i, i < files.length → projFile i s.arrived = (files[i]?.getD [])) ∧
+    (∀ d ∈ s.done, d = s.arrived.length) := by
+  unfold final at hf
+  simp only [Bool.and_eq_true, List.all_eq_true, beq_iff_eq] at hf
+  refine ⟨?_, hf.2⟩
+  intro i hi'
+  have hs := hi.split i hi'
+  have hil : i < s.remaining.length := by rw [hi.nfiles]; exact hi'
+  have hemp : s.remaining[i]?.getD [] = [] := by
+    have := hf.1 (s.remaining[i]) (List.getElem_mem hil)
+    simp only [List.getElem?_eq_getElem hil, Option.getD_some]
+    simpa using this
+  rw [hemp, List.append_nil] at hs
+  exact hs
 
 end MtailVerif.Pipeline
